@@ -350,12 +350,15 @@ func (gen *generator) irAttrGroupDef(new *ir.AttrGroupDef, oldDefs []*ast.AttrGr
 	present := make(map[string]bool)
 	for _, oldDef := range oldDefs {
 		for _, oldFuncAttr := range oldDef.FuncAttrs() {
-			lit := oldFuncAttr.LlvmNode().Text()
+			funcAttr := gen.irFuncAttribute(oldFuncAttr)
+			// Compare the attributes as they are printed, not as they are
+			// spelled in the input (`"a"="b"` and `"a" = "b"` are the same
+			// attribute).
+			lit := fmt.Sprint(funcAttr)
 			if present[lit] {
 				// skip duplicate attribute.
 				continue
 			}
-			funcAttr := gen.irFuncAttribute(oldFuncAttr)
 			new.FuncAttrs = append(new.FuncAttrs, funcAttr)
 			present[lit] = true
 		}
